@@ -39,9 +39,8 @@ func TestVerifMerge(t *testing.T) {
 	seed, n := vs.Params(20000)
 	out := vs.OpenOut()
 	defer out.Close()
-	only := vs.Only()
 	for i := 0; i < n; i++ {
-		if only >= 0 && i != only {
+		if !vs.Mine(i) {
 			continue
 		}
 		g := &vs.JGen{R: vs.CaseRand(seed, i), MaxDepth: 3}
